@@ -63,6 +63,26 @@ pub enum Case {
     Choice { flavour: u8, items: Vec<i32>, seed: u64, draws: u8 },
     /// one generator value used for `first` elements, then re-tuned through its public `size` field (and used again)
     Resized { kind: u8, first: usize, size: usize, seed: u64 },
+    /// the bitstring constructors that take a size directly: random(len) / random_with_probability(len, p)
+    RandomBits { len: usize, p: Option<f64>, seed: u64 },
+}
+
+fn random_bits_case(len: usize, p: Option<f64>, seed: u64, probe: &mut Probe) -> Result<(), Fail> {
+    let mut rng = Counting::new(seed);
+    let name = if p.is_some() { "Bitstring::random_with_probability" } else { "Bitstring::random" };
+    let got = match guarded(|| match p {
+        None => Bitstring::random(len, &mut rng).bits.len(),
+        Some(p) => Bitstring::random_with_probability(len, p, &mut rng).bits.len(),
+    }) {
+        Ok(n) => n,
+        Err(e) => fail!(format!("{name}/panic:{}", panic_key(&e)), "{name}({len}) panicked: {e}"),
+    };
+    ensure!(got == len, format!("{name}/wrong-size"), "{name}({len}{}) returned {got} bits", p.map(|p| format!(", {p}")).unwrap_or_default());
+    probe.nontrivial = len >= 2;
+    if len > 4000 {
+        probe.label("size > 4000");
+    }
+    Ok(())
 }
 
 fn resized_case(kind: u8, first: usize, size: usize, seed: u64, probe: &mut Probe) -> Result<(), Fail> {
@@ -343,6 +363,7 @@ pub fn oracle(c: &Case, probe: &mut Probe) -> Result<(), Fail> {
         Case::Collection { kind, size, seed, borrowed } => collection_case(*kind, *size, *seed, *borrowed, probe),
         Case::Choice { flavour, items, seed, draws } => choice_case(*flavour, items, *seed, *draws, probe),
         Case::Resized { kind, first, size, seed } => resized_case(*kind, *first, *size, *seed, probe),
+        Case::RandomBits { len, p, seed } => random_bits_case(*len, *p, *seed, probe),
     }
 }
 
@@ -353,6 +374,12 @@ pub fn strategy(max_size: usize) -> BoxedStrategy<Case> {
         3 => (0u8..15, prop_oneof![1 => Just(vec![]), 6 => prop::collection::vec(-3i32..4, 1..=8), 2 => prop::collection::vec(any::<i32>(), 1..=8)], any::<u64>(), 1u8..5)
             .prop_map(|(flavour, items, seed, draws)| Case::Choice { flavour, items, seed, draws }),
         1 => (0u8..3, 0usize..=40, prop_oneof![3 => 0usize..=40, 1 => 0usize..=max_size], any::<u64>()).prop_map(|(kind, first, size, seed)| Case::Resized { kind, first, size, seed }),
+        1 => (
+            prop_oneof![4 => 0usize..=70, 3 => 0usize..=max_size, 1 => prop::sample::select(vec![63usize, 64, 65, 127, 128, 129, 4095, 4096, 4097, 8191, 8193, 65_535, 65_537])],
+            prop_oneof![1 => Just(None), 1 => (0.0f64..=1.0).prop_map(Some), 1 => prop::sample::select(vec![0.0f64, 1.0, 0.5]).prop_map(Some)],
+            any::<u64>()
+        )
+            .prop_map(|(len, p, seed)| Case::RandomBits { len, p, seed }),
     ]
     .boxed()
 }
@@ -652,7 +679,7 @@ fn wide_count_check(ctx: &mut Ctx) {
 }
 
 pub fn run(ctx: &mut Ctx) {
-    ctx.rule = "collections: sizes 0..300 plus boundary sizes up to 5000 (and 100000 once per run) through Generator for Vec<T>, Bitstring, Plushy, populations of scored individuals and nested collections, into_ and to_ flavours, with an element generator that counts how often it is asked and tags what it emits (length = size, asked exactly size times, elements are exactly the generator's output). choices: all 14 conversion flavours of conversion.rs (Vec / array / slice x into / to x owned-cloning / borrowing / cloning) plus uniform_distribution_of!, sources of length 0..8 (membership) and 1..200 (frequencies) with and without duplicates, plus the Vec / slice flavours built once over 255..65537 members and sampled many times (16 index buckets and the end members), two sources of 25 and 33 million members (index residues mod 2, 3, 5, 8 and 16 buckets: beyond the resolution of a 24-bit draw), and sources of up to 2^33+1 zero-sized members (accepted, num_choices exact): empty => rejected at construction without panic; samples are members (pointer identity for borrowing flavours), num_choices = length; member frequencies = multiplicity / length (Chernoff/KL). non-trivial = size >= 2 / source length >= 2; statistics with 0 < p < 1".into();
+    ctx.rule = "collections: sizes 0..300 plus boundary sizes up to 5000 (and 100000 once per run; bitstrings of 2^24+1, 2^25+1 and 2^26+2 bits once per run, also through Bitstring::random / random_with_probability, which are exercised at all other sizes too) through Generator for Vec<T>, Bitstring, Plushy, populations of scored individuals and nested collections, into_ and to_ flavours, with an element generator that counts how often it is asked and tags what it emits (length = size, asked exactly size times, elements are exactly the generator's output). choices: all 14 conversion flavours of conversion.rs (Vec / array / slice x into / to x owned-cloning / borrowing / cloning) plus uniform_distribution_of!, sources of length 0..8 (membership) and 1..200 (frequencies) with and without duplicates, plus the Vec / slice flavours built once over 255..65537 members and sampled many times (16 index buckets and the end members), two sources of 25 and 33 million members (index residues mod 2, 3, 5, 8 and 16 buckets: beyond the resolution of a 24-bit draw), and sources of up to 2^33+1 zero-sized members (accepted, num_choices exact): empty => rejected at construction without panic; samples are members (pointer identity for borrowing flavours), num_choices = length; member frequencies = multiplicity / length (Chernoff/KL). non-trivial = size >= 2 / source length >= 2; statistics with 0 < p < 1".into();
     let (n, trials, max) = ctx.tier.pick((300_000u32, 1_000_000u64, 300usize), (5_000_000, 10_000_000, 2_000));
     // one very large request per run
     ctx.run_cases(
@@ -662,6 +689,12 @@ pub fn run(ctx: &mut Ctx) {
             Case::Collection { kind: 1, size: 100_000, seed: ctx.seed, borrowed: true },
             Case::Collection { kind: 2, size: 65_537, seed: ctx.seed, borrowed: false },
             Case::Collection { kind: 3, size: 10_000, seed: ctx.seed, borrowed: false },
+            // beyond the integers an f32 represents exactly (2^24), at sizes that are one or two past a multiple of 64
+            Case::RandomBits { len: (1 << 24) + 1, p: None, seed: ctx.seed },
+            Case::RandomBits { len: (1 << 24) + 1, p: Some(0.25), seed: ctx.seed },
+            Case::RandomBits { len: (1 << 25) + 1, p: None, seed: ctx.seed },
+            Case::RandomBits { len: (1 << 26) + 2, p: None, seed: ctx.seed },
+            Case::Collection { kind: 1, size: (1 << 24) + 1, seed: ctx.seed, borrowed: false },
         ],
         oracle,
     );
